@@ -1085,10 +1085,12 @@ impl<'a> Gen<'a> {
         self.anchors_cur.clear();
         self.e_handle = false;
         let declare_e = self.r.chance(1, 6);
+        let mut prev_explicit_end = false;
         for d in 0..docs {
             let mut doc = String::new();
             self.nodes_left = 1 + self.r.usize(self.sw.max_nodes);
-            let mut explicit = d > 0 || self.r.chance(1, 3);
+            // a document after an explicit `...` may be bare (no `---`)
+            let mut explicit = if d > 0 && prev_explicit_end { self.r.chance(1, 2) } else { d > 0 || self.r.chance(1, 3) };
             if declare_e && (d == 0 || self.r.chance(1, 3)) {
                 // a %TAG !e! directive in the first document (and sometimes again later): later
                 // documents that use !e! without it are valid only under keep_tags(true)
@@ -1111,8 +1113,12 @@ impl<'a> Gen<'a> {
             } else {
                 self.block_node(0, 0, &mut doc, false);
             }
-            if self.r.chance(1, 5) {
-                doc.push_str("...\n");
+            prev_explicit_end = self.r.chance(1, 4);
+            if prev_explicit_end {
+                if !doc.ends_with('\n') {
+                    doc.push('\n');
+                }
+                doc.push_str(*self.r.pick(&["...\n", "...\n", "... # end\n", "...\n\n"]));
             }
             if self.r.below(1000) < u64::from(self.sw.crlf) {
                 doc = doc.replace('\n', "\r\n");
